@@ -29,7 +29,9 @@ RULE = (
     "AND/OR/NOT, BETWEEN, [NOT] LIKE/ILIKE (+ESCAPE), [NOT] IN (expanding bind and expression list), searched and simple CASE, CAST, COLLATE, "
     "correlated scalar subquery, EXISTS, coalesce/abs/lower/upper/length; each tree built naturally and fully parenthesised. "
     "Non-trivial: (>=2 operators of different SQLAlchemy precedence classes AND the natural build contains at least one automatic Grouping) "
-    "OR a NOT directly over a comparison / LIKE / IN / BETWEEN / IS (negation rewrite active); distinct = canonical JSON of (tree, rows) "
+    "OR a NOT directly over a comparison / LIKE / IN / BETWEEN / IS (negation rewrite active) OR a chain of >=2 nested NOTs "
+    "(1-4 nested NOTs are generated over every boolean atom kind: Boolean column/literal, boolean CASE/CAST/function/scalar subquery, comparison, IS NULL, EXISTS, "
+    "and_/or_ collapsing through true()/false() members); distinct = canonical JSON of (tree, rows) "
     "[grammar sub: of (tree, dialect)]"
 )
 ASSUMPTIONS = [
@@ -104,7 +106,19 @@ def _nontrivial(tree, nat):
     has_group = any(isinstance(el, E.Grouping) for el in visitors.iterate(nat))
     flattened = any(isinstance(el, E.ExpressionClauseList) and len(el.clauses) > 2 for el in visitors.iterate(nat))
     neg_rw = any(n[0] == "not" and n[2][0] in ("cmp", "like", "in", "inx", "btw", "isn", "is") for n in X.walk(tree))
-    return (len(classes) >= 2 and has_group) or neg_rw, has_group, neg_rw, flattened
+    neg_chain = any(depth >= 2 for depth, _ in X.negchains(tree))
+    return (len(classes) >= 2 and has_group) or neg_rw or neg_chain, has_group, neg_rw, flattened
+
+
+def _neg_classes(tree):
+    out = set()
+    for depth, kind in X.negchains(tree):
+        out.add("negchain-depth:%d" % min(depth, 4))
+        if depth >= 2:
+            out.add("negchain>=2-over:" + kind)
+        if depth >= 3 and kind in ("col", "lit", "case", "scase", "cast", "fn", "ssq", "collapse"):
+            out.add("negchain>=3-over-asboolean-atom")
+    return sorted(out)
 
 
 def check_live(case, ctx):
@@ -128,7 +142,7 @@ def check_live(case, ctx):
         ctx.note(case, False, classes=["excluded"])
         return
     nontrivial, has_group, neg_rw, flattened = _nontrivial(tree, nat)
-    cls = ["root:" + tree[1], "depth:%d" % min(X.depth(tree), 7), "rows:%d" % min(len(rows), 3)]
+    cls = ["root:" + tree[1], "depth:%d" % min(X.depth(tree), 7), "rows:%d" % min(len(rows), 3)] + _neg_classes(tree)
     if has_group:
         cls.append("auto-grouping")
     if neg_rw:
@@ -238,7 +252,7 @@ def check_grammar(case, ctx):
         ctx.note(case, False, classes=["excluded"])
         return
     nontrivial, has_group, neg_rw, flattened = _nontrivial(tree, nat)
-    cls = ["dialect:" + dname, "root:" + tree[1]]
+    cls = ["dialect:" + dname, "root:" + tree[1]] + _neg_classes(tree)
     if has_group:
         cls.append("auto-grouping")
     if neg_rw:
